@@ -169,7 +169,7 @@ func flagStringKey(s string) string {
 	}
 
 	m := map[string]bool{}
-	for _, f := range strings.Split(s, ",") {
+	for _, f := range strings.Split(s, db.FlagSeparator) {
 		m[strings.ToLower(f)] = true
 	}
 
@@ -580,7 +580,7 @@ func modelCreateMsg(m *dbModel, req *db.CreateMessageReq, keepDeletedFlag bool) 
 	return msg
 }
 
-var c08Flags = []string{`\Seen`, `\Flagged`, `\Answered`, `\Draft`, "kw1", "Kw2"}
+var c08Flags = []string{`\Seen`, `\Flagged`, `\Answered`, `\Draft`, "kw1", "Kw2", "kw,3"}
 
 func (c *c08Case) someFlags(max int) []string {
 	n := c.rng.Intn(max + 1)
